@@ -32,13 +32,13 @@ func init() {
 	register(&PropertyDef{
 		ID:          "C12",
 		Title:       "Invitations are self-authenticating; replication descriptors cannot read",
-		Explanation: "Decides, from the type-checked SSA of /repo: (D1) by finite-domain abstract evaluation of MetadataStore.GroupJoin, one scenario per group type (each enum value and one undeclared value), signature verdict and key-parse verdict: the call that appends the AccountGroupJoined event is reachable, or a nil error is returned, only when Verify(key parsed from the group's PublicKey, Secret, SecretSig) accepted and the type is multi-member; and every module caller of GroupJoin returns an error on every path once GroupJoin has refused; (D2) by a field-label dataflow over FilterGroupForReplication and the module functions it uses: the returned descriptor is neither the input nor a copy or serialisation of it, and no value stored into a field of it can be computed back to the raw Secret (the secret reaches it only through the one-way functions listed under trusted base); (D3) the access-controller manifest stored by DefaultOrbitDBOptions and the store name given to DetermineAddress depend on no field of the group other than PublicKey, SignPub and a one-way image of Secret, and the descriptor carries exactly those inputs (PublicKey copied, SignPub = signing public key); (D4) by abstract evaluation of the SecretStore implementation's GetOwnMemberDeviceForGroup per group type: for a multi-member group no key of the returned member/device pair is a keystore entry stored under a constant (account-wide) name; (D5) the secretbox.Open calls that open GroupEnvelope.Event and MessageEnvelope.MessageHeaders (and any other box keyed on a group parameter) take a key computed from the raw Secret, which by D2 the descriptor lacks. Not decided: unforgeability of Ed25519 and one-wayness of HKDF / public-key derivation (trusted); that the append itself succeeds; that message payload keys (chain keys) reach only members (C05); implicit (control-dependence) flows of the secret; writes into the input group (it is treated as immutable); a descriptor built by copying the whole group and clearing fields afterwards is reported although it could be correct (the dataflow is flow-insensitive); deferred closures are not interpreted by the evaluator (checked not to assign captured variables).",
+		Explanation: "Decides, from the type-checked SSA of /repo: (D1) by finite-domain abstract evaluation of MetadataStore.GroupJoin, one scenario per group type (each enum value and one undeclared value), signature verdict and key-parse verdict: the call that appends the AccountGroupJoined event is reachable, or a nil error is returned, only when Verify(key parsed from the group's PublicKey, Secret, SecretSig) accepted and the type is multi-member; and every module caller of GroupJoin returns an error on every path once GroupJoin has refused; (D6) in every module caller of GroupJoin, a call that receives the same group and may write to a datastore/keystore (effect summaries) or open an orbit-db store is not executable on any path on which GroupJoin has not accepted the group (evaluated with GroupJoin refusing: before the validating call, without it, after its failure); (D2) by a field-label dataflow over FilterGroupForReplication and the module functions it uses: the returned descriptor is neither the input nor a copy or serialisation of it, and no value stored into a field of it can be computed back to the raw Secret (the secret reaches it only through the one-way functions listed under trusted base); (D3) the access-controller manifest stored by DefaultOrbitDBOptions and the store name given to DetermineAddress depend on no field of the group other than PublicKey, SignPub and a one-way image of Secret, and the descriptor carries exactly those inputs (PublicKey copied, SignPub = signing public key); (D4) by abstract evaluation of the SecretStore implementation's GetOwnMemberDeviceForGroup per group type: for a multi-member group no key of the returned member/device pair is a keystore entry stored under a constant (account-wide) name; (D5) the secretbox.Open calls that open GroupEnvelope.Event and MessageEnvelope.MessageHeaders (and any other box keyed on a group parameter) take a key computed from the raw Secret, which by D2 the descriptor lacks. Not decided: unforgeability of Ed25519 and one-wayness of HKDF / public-key derivation (trusted); that the append itself succeeds; that message payload keys (chain keys) reach only members (C05); implicit (control-dependence) flows of the secret; writes into the input group (it is treated as immutable); a descriptor built by copying the whole group and clearing fields afterwards is reported although it could be correct (the dataflow is flow-insensitive); deferred closures are not interpreted by the evaluator (checked not to assign captured variables).",
 		Trusted: []string{"golang.org/x/tools go/packages+go/ssa (v0.29.0)", "go/types",
 			"libp2p crypto.PubKey.Verify / UnmarshalEd25519PublicKey semantics",
 			"one-way functions: crypto.PrivKey.GetPublic, ed25519.PrivateKey.Public, hkdf.New/Extract/Expand/Key, hmac.New, sha256/sha512/sha3/blake2b sums",
 			"keystore names are the identity of a key (go-ipfs-keystore Get/Put)"},
 		Assumptions: []string{"dependencies behave as documented; only module code is analysed", "label dataflow is flow-insensitive and ignores control dependence"},
-		Floors:      map[string]int{"D1": 5, "D2": 1, "D3": 4, "D4": 1, "D5": 2},
+		Floors:      map[string]int{"D1": 5, "D2": 1, "D3": 4, "D4": 1, "D5": 2, "D6": 1},
 		Run:         runC12,
 	})
 }
@@ -471,12 +471,39 @@ func c12ErrKey(k string) bool {
 type c12Outcome = Outcome
 
 // c12Eval evaluates fn on symbolic arguments; every outcome carries the final heap of its path.
+// A module function whose interpretation exceeds the loop budget (a byte-copy loop, say) is
+// not interpreted on the next attempt: its call then yields unknown results, which keeps the
+// set of outcomes an over-approximation (anything it would have checked is seen as unchecked).
 func c12Eval(w *World, cfg EvalConfig, fn *ssa.Function) []c12Outcome {
 	if cfg.MaxDepth == 0 {
 		cfg.MaxDepth = 6
 	}
-	ev := &Evaluator{W: w, Cfg: cfg}
-	return ev.Eval(fn, ev.SymbolicArgs(fn))
+	const loopMsg = "loop budget exceeded in "
+	opaque := map[string]bool{}
+	inline := cfg.Inline
+	cfg.Inline = func(f *ssa.Function) bool {
+		if opaque[fnName(f)] {
+			return false
+		}
+		return inline == nil || inline(f)
+	}
+	for attempt := 0; ; attempt++ {
+		ev := &Evaluator{W: w, Cfg: cfg}
+		outs := ev.Eval(fn, ev.SymbolicArgs(fn))
+		more := false
+		for _, o := range outs {
+			if o.Kind == "truncated" && strings.HasPrefix(o.Why, loopMsg) {
+				name := strings.TrimPrefix(o.Why, loopMsg)
+				if name != fnName(fn) && !opaque[name] {
+					opaque[name] = true
+					more = true
+				}
+			}
+		}
+		if !more || attempt >= 8 {
+			return outs
+		}
+	}
 }
 
 // c12IsKeyParser: a library function ([]byte) -> (crypto.PubKey, error), e.g.
@@ -516,6 +543,7 @@ func c12HasConstArg(cc *ssa.CallCommon, want *types.Const) bool {
 
 func runC12(c *Ctx) {
 	c12D1(c)
+	c12D6(c)
 	flow := newC12Flow(c.W)
 	c12D2D3(c, flow)
 	c12D4(c)
@@ -782,6 +810,186 @@ func c12D1(c *Ctx) {
 		c.note("GroupJoin has no caller inside the module")
 	}
 	c.count("join_callers", nCallers)
+}
+
+// ---- D6: nothing persistent is done with an invitation before it is validated -----
+
+// c12WriteEffect: a datastore / keystore effect that changes persistent state.
+func c12WriteEffect(e Effect) bool {
+	switch e.Op {
+	case "Put", "Delete", "Commit", "KsPut", "KsDelete":
+		return true
+	}
+	return false
+}
+
+// c12OpensStore: fn (or a module function it reaches) opens or creates an orbit-db store.
+func c12OpensStore(w *World, fn *ssa.Function) bool {
+	if v, ok := w.memo["c12opens:"+fn.String()].(bool); ok {
+		return v
+	}
+	res := false
+	for f := range w.reachableFuncs([]*ssa.Function{fn}, 6) {
+		for _, ci := range callsIn(f, func(k string, cc *ssa.CallCommon) bool {
+			if !cc.IsInvoke() || !strings.HasPrefix(k, "("+c12PkgOrbit) {
+				return false
+			}
+			switch cc.Method.Name() {
+			case "Open", "Create", "DetermineAddress":
+				return true
+			}
+			return false
+		}) {
+			_ = ci
+			res = true
+		}
+	}
+	w.memo["c12opens:"+fn.String()] = res
+	return res
+}
+
+func c12D6(c *Ctx) {
+	w := c.W
+	join := w.lookupMethod(pkgRoot, "MetadataStore", "GroupJoin")
+	if join == nil || join.Blocks == nil {
+		c.undecided("D6", "MetadataStore.GroupJoin", token.NoPos, "exported method MetadataStore.GroupJoin not found")
+		return
+	}
+	gIdx := -1
+	for i, p := range join.Params {
+		if c12IsGroupStruct(p.Type()) {
+			gIdx = i
+		}
+	}
+	if gIdx < 0 {
+		c.undecided("D6", fnName(join), join.Pos(), "GroupJoin has no group parameter")
+		return
+	}
+	ei := w.effects()
+	n := 0
+	for _, cs := range w.callGraph().callers[join] {
+		jcall, ok := cs.Instr.(*ssa.Call)
+		if !ok || gIdx >= len(jcall.Common().Args) {
+			continue
+		}
+		caller := cs.Caller
+		n++
+		c.analysed(caller)
+		construct := fnName(caller) + "+uses-before-validation"
+		g := jcall.Common().Args[gIdx]
+		gPath, gHasPath := accessPath(g)
+		same := func(v ssa.Value) bool {
+			if stripConv(v) == stripConv(g) {
+				return true
+			}
+			if gHasPath {
+				if p, ok := accessPath(v); ok && p == gPath {
+					return true
+				}
+			}
+			return false
+		}
+		// the calls of the caller that receive the same group and may change persistent state
+		sinks := map[*ssa.CallCommon]string{}
+		bySite := map[ssa.CallInstruction]effectSite{}
+		for _, es := range ei.sitesIn(caller) {
+			bySite[es.Instr] = es
+		}
+		cg := w.callGraph()
+		for _, b := range caller.Blocks {
+			for _, in := range b.Instrs {
+				ci, ok := in.(ssa.CallInstruction)
+				if !ok || ci == ssa.CallInstruction(jcall) {
+					continue
+				}
+				cc := ci.Common()
+				takes := cc.IsInvoke() && same(cc.Value)
+				for _, a := range cc.Args {
+					if same(a) {
+						takes = true
+					}
+				}
+				if !takes {
+					continue
+				}
+				var what []string
+				if es, ok := bySite[ci]; ok {
+					for _, e := range es.Effects {
+						if c12WriteEffect(e) {
+							what = append(what, e.String())
+						}
+					}
+				}
+				for _, e := range cg.callees[caller] {
+					if e.Site == ci && inModule(e.Callee) && c12OpensStore(w, e.Callee) {
+						what = append(what, "opens an orbit-db store")
+						break
+					}
+				}
+				if len(what) > 0 {
+					name := calleeKey(cc)
+					if cc.IsInvoke() {
+						name = cc.Method.Name()
+					} else if f := staticCallee(cc); f != nil {
+						name = fnName(f)
+					}
+					if len(what) > 4 {
+						what = append(what[:4], "...")
+					}
+					sinks[cc] = fmt.Sprintf("%s at %s (%s)", name, c.pos(posOf(ci)), strings.Join(what, ", "))
+				}
+			}
+		}
+		if len(sinks) == 0 {
+			c.ok("D6", construct, posOf(jcall), "no call of %s other than GroupJoin hands the group to code that writes to the secret store, a keystore or opens a store", fnName(caller))
+			continue
+		}
+		// with GroupJoin refusing, none of them may execute: neither before the validating call,
+		// nor on a path without it, nor after its failure
+		isJoin := func(cc *ssa.CallCommon) bool { return staticCallee(cc) == join }
+		cfg := EvalConfig{
+			Inline:      func(*ssa.Function) bool { return false },
+			Interesting: func(_ string, cc *ssa.CallCommon) bool { return sinks[cc] != "" },
+			Call: func(_ *Evaluator, _ *pstate, k string, cc *ssa.CallCommon, _ []AVal) ([]AVal, bool) {
+				switch {
+				case isJoin(cc):
+					res := make([]AVal, cc.Signature().Results().Len())
+					res[len(res)-1] = aNonNil{Tag: "join refused"}
+					return res, true
+				case c12ErrKey(k):
+					return []AVal{aNonNil{Tag: "error"}}, true
+				}
+				return nil, false
+			},
+		}
+		bad := map[string]bool{}
+		trunc := ""
+		for _, o := range c12Eval(w, cfg, caller) {
+			if o.Kind == "truncated" {
+				trunc = o.Why
+			}
+			for _, e := range o.Trace {
+				bad[sinks[e.Site.Common()]] = true // call, go or defer: all execute
+			}
+		}
+		var bl []string
+		for k := range bad {
+			bl = append(bl, k)
+		}
+		sort.Strings(bl)
+		switch {
+		case len(bl) > 0:
+			c.fail("D6", construct, posOf(jcall), "the group handed to GroupJoin is given to %s on a path where GroupJoin has not accepted it (before the validating call, without it, or after it failed): a tampered invitation is refused but leaves persistent state behind (a stored group is later activated with the forged secret/type)", strings.Join(bl, "; "))
+		case trunc != "":
+			c.undecided("D6", construct, posOf(jcall), "abstract evaluation truncated: %s", trunc)
+		default:
+			c.ok("D6", construct, posOf(jcall), "%d state-changing use(s) of the joined group, all only after GroupJoin accepted it", len(sinks))
+		}
+	}
+	if n == 0 {
+		c.note("D6: GroupJoin has no caller inside the module")
+	}
+	c.count("join_callers_checked_for_early_effects", n)
 }
 
 // ---- D2 / D3: descriptor and log address inputs ----------------------------
